@@ -1714,16 +1714,16 @@ fn eval_for_in(
         .pop_value()
         .expect("Popped an empty value stack for `for` loop iterated value");
 
-    let iteree_idx = env
+    let iteree_idx_value = env
         .pop_value()
         .expect("Popped an empty value stack for `for` loop index");
 
-    let iteree_idx = match iteree_idx.as_ref() {
+    let iteree_idx = match iteree_idx_value.as_ref() {
         Value_::Int(i) => *i,
         _ => {
             unreachable!(
                 "`for` loop index should always be an `Int`, got `{}`: {}",
-                iteree_idx.display(env),
+                iteree_idx_value.display(env),
                 outer_expr.position.as_ide_string(&env.project_root)
             )
         }
@@ -1731,7 +1731,7 @@ fn eval_for_in(
 
     let Value_::List { items, .. } = iteree_value.as_ref() else {
         return Err((
-            RestoreValues(vec![iteree_value.clone()]),
+            RestoreValues(vec![iteree_idx_value, iteree_value.clone()]),
             EvalError::Exception(ExceptionInfo {
                 position: iteree_pos.clone(),
                 message: format_type_error(
@@ -1763,19 +1763,8 @@ fn eval_for_in(
         return Ok(());
     }
 
-    // After this iteration's body, a DoneRunBlock step (see the
-    // `ForIn` dispatch) pops the bindings block that `eval_block`
-    // pushes, before the next iteration runs.
-    env.push_expr_to_eval(
-        ExpressionState::PartiallyEvaluated(BlockState::DoneRunBlock),
-        Rc::clone(&outer_expr),
-    );
-
-    // Push the iterated value and the index for the next time we call
-    // this function.
-    env.push_value(Value::new(Value_::Int(iteree_idx + 1)));
-    env.push_value(iteree_value.clone());
-
+    // Work out the bindings for this iteration first: if the element
+    // can't be destructured, we must fail before queueing anything.
     let mut bindings: Vec<(Symbol, Value)> = vec![];
     let iteree_current_elem = items[iteree_idx as usize].clone();
 
@@ -1789,7 +1778,7 @@ fn eval_for_in(
             Value_::Tuple { items, .. } => {
                 if items.len() != symbols.len() {
                     return Err((
-                        RestoreValues(vec![iteree_current_elem.clone()]),
+                        RestoreValues(vec![iteree_idx_value, iteree_value.clone()]),
                         EvalError::Exception(ExceptionInfo {
                             position: iteree_pos.clone(),
                             message: ErrorMessage(vec![Text(format!(
@@ -1811,7 +1800,7 @@ fn eval_for_in(
             }
             _ => {
                 return Err((
-                    RestoreValues(vec![iteree_current_elem.clone()]),
+                    RestoreValues(vec![iteree_idx_value, iteree_value.clone()]),
                     EvalError::Exception(ExceptionInfo {
                         position: iteree_pos.clone(),
                         message: format_type_error(
@@ -1826,6 +1815,19 @@ fn eval_for_in(
             }
         },
     }
+
+    // After this iteration's body, a DoneRunBlock step (see the
+    // `ForIn` dispatch) pops the bindings block that `eval_block`
+    // pushes, before the next iteration runs.
+    env.push_expr_to_eval(
+        ExpressionState::PartiallyEvaluated(BlockState::DoneRunBlock),
+        Rc::clone(&outer_expr),
+    );
+
+    // Push the iterated value and the index for the next time we call
+    // this function.
+    env.push_value(Value::new(Value_::Int(iteree_idx + 1)));
+    env.push_value(iteree_value.clone());
 
     let stack_frame = env.current_frame_mut();
     stack_frame.bindings_next_block = bindings;
@@ -6719,11 +6721,16 @@ fn eval_expr(
                 let mut items: rpds::HashTrieMap<String, Value> = rpds::HashTrieMap::new();
                 let mut value_type = Type::no_value();
 
+                // Everything popped so far, so we can put it back if
+                // a key isn't a string.
+                let mut popped_values: Vec<Value> = vec![];
+
                 for kv in item_exprs {
                     // The evaluated value of key-value pair.
                     let value_value = env
                         .pop_value()
                         .expect("Value stack should have sufficient items for the dict literal");
+                    popped_values.push(value_value.clone());
 
                     // TODO: check that all elements are of a compatible type.
                     // Dict[1 => 1, 2 => ""] should be a runtime error.
@@ -6732,12 +6739,12 @@ fn eval_expr(
                     let key_value = env
                         .pop_value()
                         .expect("Value stack should have sufficient items for the dict literal");
+                    popped_values.push(key_value.clone());
 
                     let key_str = check_string(
                         &key_value,
                         &kv.key.position,
-                        // TODO: set saved_values properly here.
-                        vec![],
+                        popped_values.iter().rev().cloned().collect(),
                         env,
                     )?;
 
